@@ -577,6 +577,12 @@ class Bus {
       uint8_t a = enhArbAddr;
       enhArbAddr = 0xAA;
       int64_t t = std::max(lastByteTime, g.now) + SYM;
+      if (strayBeforeStartedPct > 0 && rng && (int)rng->below(100) < strayBeforeStartedPct) {
+        // the adapter reports a disturbed symbol first and the won arbitration afterwards: the handler has left its ready state by then
+        emit(t, rng->pick(std::vector<uint8_t>{0x55, 0x02, 0xA0, 0x9f}), 'N');
+        t = lastByteTime + SYM;
+        straysBeforeStarted++;
+      }
       log.push_back({t, a, 'H', false, a});
       lastByteTime = t;
       hostBytes++;
@@ -607,6 +613,8 @@ class Bus {
   }
   long arbWrites = 0, dropArbWriteAt = -1;      // which arbitration write of the host (plain device) is swallowed
   std::vector<DroppedWrite> dropped;
+  int strayBeforeStartedPct = 0;   // enhanced device (C04 only: no wire monitor): STARTED is preceded by a received non-master symbol
+  long straysBeforeStarted = 0;
   int strayAfterArbPct = 0;
   long strays = 0;
 
